@@ -100,52 +100,88 @@ def mk_pix(prng, shp, dt):
     return prng.integers(max(ii.min, -30000), min(ii.max, 30000), size=shp, endpoint=True).astype(dt)
 
 
+# ambient GDAL / rasterio configurations a caller may be running under: the property must hold in all of them
+ENVS = [
+    {},
+    {},
+    {"GDAL_DISABLE_READDIR_ON_OPEN": "EMPTY_DIR"},
+    {"GDAL_DISABLE_READDIR_ON_OPEN": "TRUE"},
+    {"GDAL_CACHEMAX": 1},
+    {"GDAL_NUM_THREADS": "2"},
+    {"GDAL_NUM_THREADS": "ALL_CPUS", "GDAL_CACHEMAX": 16},
+    {"CPL_VSIL_CURL_ALLOWED_EXTENSIONS": ".tif", "VSI_CACHE": "TRUE", "GDAL_HTTP_MAX_RETRY": "3",
+     "GDAL_HTTP_MERGE_CONSECUTIVE_RANGES": "YES"},
+    {"GDAL_DISABLE_READDIR_ON_OPEN": "EMPTY_DIR", "GDAL_CACHEMAX": 4, "GDAL_NUM_THREADS": "2",
+     "CPL_VSIL_CURL_ALLOWED_EXTENSIONS": ".tif"},
+]
+ENTRIES = ["write_cog", "to_cog", "write_cog_layers", "acc_write_cog", "acc_to_cog"]
+DESTS = ["mem", "file_new", "file_exists_overwrite", "file_exists_keep"]
+OVR_MODES = ["none", "default", "levels", "supplied"]
+CONTENTS = ["random", "random", "zeros", "tiles", "tiles", "checker"]
+
+
+def nodata_candidates(dt: str):
+    k = np.dtype(dt).kind
+    if dt == "float64":
+        return [-9999.0, float("nan"), 0.0, 1.7976931348623157e308, 5e-324, -1e308]
+    if dt == "float32":
+        return [-9999.0, float("nan"), 0.0, 3.4028234663852886e38, float(np.float32(1 / 3))]
+    if k == "u":
+        return [0, 255, 1]
+    return [-1, 0, -128 if dt == "int8" else -9999, 127]
+
+
+def valid_levels(levels, h, w):
+    """rasterio refuses a level list in which more than one level collapses to 1x1 (user error, not judged)"""
+    keep, ones = [], 0
+    for l in levels:
+        ones += (-(-h // l), -(-w // l)) == (1, 1)
+        if ones > 1:
+            break
+        keep.append(l)
+    return keep
+
+
 def gen_cfg(rng: random.Random, big_ok: bool):
+    """One point of the cross-product  entry point x destination x overview mode x nodata(attrs / keyword) x
+    content pattern x ambient GDAL env x write options, sampled by seed."""
     layout = rng.choice(["YX", "YX", "SYX", "YXS"])
     nb = 1 if layout == "YX" else rng.randint(1, 4)
     r = rng.random()
-    if r < 0.12 and big_ok:
+    if r < 0.10 and big_ok:
         h, w = rng.randint(512, 1100), rng.randint(512, 1100)
         dt = rng.choice(["uint8", "int16", "int8", "uint16"])
         nb = min(nb, 2)
-    elif r < 0.2 and big_ok:
+    elif r < 0.17 and big_ok:
         h, w = rng.choice([(511, 700), (512, 512), (700, 511), (513, 600), (512, 1100)])
         dt = rng.choice(["uint8", "int16", "float32"])
         nb = min(nb, 2)
     else:
-        side = lambda: rng.choice([1, 2, 3, 5, 15, 16, 17, 33, 64, 100, rng.randint(1, 300), rng.randint(1, 300)])
+        side = lambda: rng.choice([1, 2, 3, 5, 15, 16, 17, 33, 64, 96, 100, 128, rng.randint(1, 300), rng.randint(1, 300)])
         h, w = side(), side()
         dt = rng.choice(DTYPES)
-    if dt == "float64":
-        nodata = rng.choice([None, None, -9999.0, float("nan"), 0.0, 1.7976931348623157e308, 5e-324, -1e308])
-    elif dt == "float32":
-        nodata = rng.choice([None, None, -9999.0, float("nan"), 0.0, 3.4028234663852886e38, float(np.float32(1 / 3))])
-    elif np.dtype(dt).kind == "u":
-        nodata = rng.choice([None, None, 0, 255])
+    cands = nodata_candidates(dt)
+    attrs_nd = rng.choice([None, rng.choice(cands)])
+    kw_mode = rng.choice(["absent", "absent", "same", "different"])
+    if kw_mode == "same":
+        kw_nd = attrs_nd
+    elif kw_mode == "different":
+        kw_nd = rng.choice([c for c in cands if not same_nodata(c, attrs_nd)])
     else:
-        nodata = rng.choice([None, None, -1, 0, -128 if dt == "int8" else -9999])
-    ovr = rng.choice([None, None, [], [2], [2, 4], [2, 4, 8], [3], [2, 8]])
-    api = rng.choice(["to_cog", "write_cog_mem", "file_new", "file_new", "file_exists_overwrite", "file_exists_keep",
-                      "layers_mem", "layers_file", "acc_to_cog", "acc_write_cog", "write_cog_ovrs"])
-    if api.startswith("layers") or api == "write_cog_ovrs":
-        ovr = None
-    if ovr:
-        # rasterio refuses a level list in which more than one level collapses to 1x1 (user error, not judged)
-        keep, ones = [], 0
-        for l in ovr:
-            ones += (-(-h // l), -(-w // l)) == (1, 1)
-            if ones > 1:
-                break
-            keep.append(l)
-        ovr = keep
+        kw_nd = None
+    entry = rng.choice(ENTRIES)
+    dest = "mem" if entry in ("to_cog", "acc_to_cog") else rng.choice(DESTS)
+    ovr_mode = rng.choice(["none", "supplied"]) if entry == "write_cog_layers" else rng.choice(OVR_MODES)
+    levels = valid_levels(rng.choice([[2], [2, 4], [2, 4, 8], [3], [2, 8], [4]]), h, w) if ovr_mode == "levels" else None
     return dict(
-        layout=layout, nb=nb, h=h, w=w, dtype=dt, nodata=nodata, overview_levels=ovr,
+        layout=layout, nb=nb, h=h, w=w, dtype=dt, attrs_nodata=attrs_nd, kw_nodata=kw_nd,
+        entry=entry, dest=dest, ovr_mode=ovr_mode, overview_levels=levels, nlayers=rng.randint(1, 3),
+        overwrite_new=rng.random() < 0.5,
         blocksize=rng.choice([None, None, 16, 32, 64, 100, 128, 17, 250, 256, 512, 1024]),
         ovr_blocksize=rng.choice([None, None, None, 64, 128]),
-        windowed=rng.random() < 0.25, icomp=rng.choice([False, False, True, "zstd", "deflate", {"compress": "lzw"}]),
+        windowed=rng.random() < 0.35, icomp=rng.choice([False, False, True, "zstd", "deflate", {"compress": "lzw"}]),
         resampling=rng.choice([None, None, "nearest", "average"]),
-        api=api, nlayers=rng.randint(1, 3), seed=rng.randint(0, 10**6),
-        nodata_via=rng.choice(["attr", "kw"]),
+        content=rng.choice(CONTENTS), env=rng.randrange(len(ENVS)), seed=rng.randint(0, 10**6),
     )
 
 
@@ -154,7 +190,55 @@ def same_nodata(a, b) -> bool:
         return a is None and b is None
     if isinstance(b, float) and math.isnan(b):
         return isinstance(a, float) and math.isnan(a)
+    if isinstance(a, float) and math.isnan(a):
+        return False
     return float(a) == float(b)
+
+
+def expected_nodata(cfg):
+    """an explicit nodata= keyword wins, otherwise the array's attrs['nodata'] — on every entry point / overview path"""
+    return cfg["kw_nodata"] if cfg["kw_nodata"] is not None else cfg["attrs_nodata"]
+
+
+def block_of(cfg):
+    b = 512 if cfg["blocksize"] is None else cfg["blocksize"]
+    return tuple(-(-(d if 0 < d < b else b) // 16) * 16 for d in (cfg["h"], cfg["w"]))
+
+
+def mk_content(prng, cfg, nodata):
+    """band-first (nb, h, w) image.  Besides random pixels: constant zero images, whole internal tiles of 0 / of the
+    nodata value / of the dtype's min / max, checkerboards aligned to the internal block size."""
+    nb, h, w, dt = cfg["nb"], cfg["h"], cfg["w"], np.dtype(cfg["dtype"])
+    kind = cfg["content"]
+    if dt.kind == "f":
+        base = prng.normal(size=(nb, h, w)).astype(dt) + dt.type(3)
+        lo, hi = np.finfo(dt).min, np.finfo(dt).max
+    else:
+        ii = np.iinfo(dt)
+        base = prng.integers(max(ii.min, -30000), min(ii.max, 30000), size=(nb, h, w), endpoint=True).astype(dt)
+        lo, hi = ii.min, ii.max
+    if kind == "zeros":
+        return np.zeros((nb, h, w), dtype=dt)
+    if kind == "random":
+        if nodata is not None and base.size > 3 and prng.random() < 0.5:
+            flat = base.reshape(-1)
+            flat[prng.integers(0, flat.size, size=max(1, flat.size // 7))] = nodata
+        return base
+    by, bx = block_of(cfg)
+    fills = [0, 0, lo, hi] + ([nodata, nodata] if nodata is not None else [])
+    out = base
+    for iy in range(-(-h // by)):
+        for ix in range(-(-w // bx)):
+            sl = (slice(None), slice(iy * by, (iy + 1) * by), slice(ix * bx, (ix + 1) * bx))
+            if kind == "checker":
+                out[sl] = fills[0] if (iy + ix) % 2 == 0 else fills[-1]
+            elif prng.random() < 0.65:
+                if prng.random() < 0.7:
+                    out[sl] = fills[prng.integers(0, len(fills))]  # the whole internal tile, every band
+                else:
+                    for b in range(nb):
+                        out[(b,) + sl[1:]] = fills[prng.integers(0, len(fills))]
+    return out
 
 
 def build(cfg, GeoBox, wrap_xr):
@@ -162,31 +246,36 @@ def build(cfg, GeoBox, wrap_xr):
     prng = np.random.default_rng(cfg["seed"])
     h, w, nb, layout = cfg["h"], cfg["w"], cfg["nb"], cfg["layout"]
     gbox = mk_gbox(rng, h, w, GeoBox)
-    shp = (h, w) if layout == "YX" else ((nb, h, w) if layout == "SYX" else (h, w, nb))
-    pix = mk_pix(prng, shp, cfg["dtype"])
+    want = mk_content(prng, cfg, expected_nodata(cfg))
+    pix = want[0] if layout == "YX" else (want if layout == "SYX" else np.ascontiguousarray(want.transpose(1, 2, 0)))
     kw = {}
     if layout == "SYX":
         kw["time"] = [f"20{i:02d}-01-01" for i in range(nb)]
-    attrs_nodata = cfg["nodata"] if cfg["nodata_via"] == "attr" else None
-    xx = wrap_xr(pix, gbox, nodata=attrs_nodata, **kw)
-    want = pix[None] if layout == "YX" else (pix if layout == "SYX" else pix.transpose(2, 0, 1))
+    xx = wrap_xr(pix, gbox, nodata=cfg["attrs_nodata"], **kw)
     return xx, pix, want, gbox
+
+
+def band_first(arr, layout):
+    return arr[None] if arr.ndim == 2 else (arr if layout == "SYX" else arr.transpose(2, 0, 1))
 
 
 def one_case(cfg, workdir, tag):
     """→ (facts for the correspondence lines, failures [(key, what)])"""
     # pylint: disable=import-outside-toplevel,too-many-locals,too-many-branches,too-many-statements
     import rasterio
+    import tifffile
+    from io import BytesIO
 
     RIO, _, GeoBox, wrap_xr = _imp()
     fails = []
     facts = {}
-    xx, pix, want, gbox0 = build(cfg, GeoBox, wrap_xr)
-    h, w = cfg["h"], cfg["w"]
+    xx, pix, want, _ = build(cfg, GeoBox, wrap_xr)
+    h, w, layout = cfg["h"], cfg["w"], cfg["layout"]
     gbox = xx.odc.geobox  # what the writer sees
     if gbox is None or gbox.shape != (h, w):
         return facts, [("harness-geobox", "input array lost its geobox")]
-    api = cfg["api"]
+    entry, dest, ovr_mode = cfg["entry"], cfg["dest"], cfg["ovr_mode"]
+    nodata = expected_nodata(cfg)
     kw = {}
     for k in ("blocksize", "ovr_blocksize"):
         if cfg[k] is not None:
@@ -195,64 +284,60 @@ def one_case(cfg, workdir, tag):
         kw["use_windowed_writes"] = True
     if cfg["icomp"] is not False:
         kw["intermediate_compression"] = cfg["icomp"]
-    layered = api.startswith("layers") or api == "write_cog_ovrs"
-    if not layered:
-        if cfg["overview_levels"] is not None:
-            kw["overview_levels"] = list(cfg["overview_levels"])
-        if cfg["resampling"] is not None:
-            kw["overview_resampling"] = cfg["resampling"]
-    nodata = cfg["nodata"]
-    if cfg["nodata_via"] == "kw" and nodata is not None and not layered:
-        kw["nodata"] = nodata
-    if layered and cfg["nodata_via"] == "kw":
-        # layered writers take nodata from the attributes of the first layer only
-        xx = xx.assign_attrs(nodata=nodata) if nodata is not None else xx
-    ydim = 1 if cfg["layout"] == "SYX" else 0
+    if cfg["kw_nodata"] is not None:
+        kw["nodata"] = cfg["kw_nodata"]
+    ydim = 1 if layout == "SYX" else 0
     layers = [xx]
-    if layered:
+    if ovr_mode == "supplied":
         cur = xx
         for _ in range(cfg["nlayers"]):
             sl = [slice(None)] * cur.ndim
             sl[ydim] = slice(None, None, 2)
             sl[ydim + 1] = slice(None, None, 2)
             nxt = cur[tuple(sl)]
-            if min(nxt.shape[ydim:ydim + 2]) < 1 or nxt.odc.geobox is None:
+            if nxt.shape == cur.shape or nxt.odc.geobox is None:
                 break
             layers.append(nxt)
             cur = nxt
+    if entry != "write_cog_layers":
+        if ovr_mode == "supplied":
+            kw["overviews"] = layers[1:]
+        elif ovr_mode == "none":
+            kw["overview_levels"] = []
+        elif ovr_mode == "levels":
+            kw["overview_levels"] = list(cfg["overview_levels"])
+        if ovr_mode in ("default", "levels") and cfg["resampling"] is not None:
+            kw["overview_resampling"] = cfg["resampling"]
 
     path = os.path.join(workdir, f"{tag}.tif")
     pre_hash = None
-    if api in ("file_exists_overwrite", "file_exists_keep"):
+    if dest in ("file_exists_overwrite", "file_exists_keep"):
         with open(path, "wb") as f:
             f.write(b"pre-existing destination " + os.urandom(64))
         pre_hash = hashlib.sha256(open(path, "rb").read()).hexdigest()
     dst_exists = pre_hash is not None
-    overwrite = api == "file_exists_overwrite" or (api in ("file_new", "layers_file", "acc_write_cog") and cfg["seed"] % 2 == 0)
-    is_mem = api in ("to_cog", "write_cog_mem", "layers_mem", "acc_to_cog", "write_cog_ovrs")
+    is_mem = dest == "mem"
+    overwrite = dest == "file_exists_overwrite" or (dest == "file_new" and cfg["overwrite_new"])
     facts["plan_line"] = f"c15 plan {bool_s(is_mem)} {bool_s(dst_exists)} {bool_s(overwrite)}"
+    if not is_mem and entry not in ("to_cog", "acc_to_cog"):
+        kw["overwrite"] = overwrite
 
     out = None
     err = None
     with warnings.catch_warnings(record=True) as wlist:
         warnings.simplefilter("always")
         try:
-            if api == "to_cog":
-                out = RIO.to_cog(xx, **kw)
-            elif api == "acc_to_cog":
-                out = xx.odc.to_cog(**kw)
-            elif api == "write_cog_mem":
-                out = RIO.write_cog(xx, ":mem:", **kw)
-            elif api == "write_cog_ovrs":
-                out = RIO.write_cog(xx, ":mem:", overviews=layers[1:], **kw)
-            elif api == "layers_mem":
-                out = RIO.write_cog_layers(layers, ":mem:", **kw)
-            elif api == "layers_file":
-                out = RIO.write_cog_layers(layers, path, overwrite=overwrite, **kw)
-            elif api == "acc_write_cog":
-                out = xx.odc.write_cog(path, overwrite=overwrite, **kw)
-            else:
-                out = RIO.write_cog(xx, path, overwrite=overwrite, **kw)
+            with rasterio.Env(**ENVS[cfg["env"]]):  # the caller's ambient GDAL configuration
+                if entry == "to_cog":
+                    out = RIO.to_cog(xx, **kw)
+                elif entry == "acc_to_cog":
+                    out = xx.odc.to_cog(**kw)
+                elif entry == "write_cog":
+                    out = RIO.write_cog(xx, ":mem:" if is_mem else path, **kw)
+                elif entry == "acc_write_cog":
+                    out = xx.odc.write_cog(":mem:" if is_mem else path, **kw)
+                else:
+                    out = RIO.write_cog_layers(layers, ":mem:" if is_mem else path, **kw)
         except Exception as e:  # pylint: disable=broad-except
             err = e
     warned = any("multiple of 16" in str(x.message) for x in wlist)
@@ -270,7 +355,7 @@ def one_case(cfg, workdir, tag):
             os.unlink(path)
         return facts, fails
     if err is not None:
-        fails.append((f"write-raises:{type(err).__name__}", f"{api} raised {type(err).__name__}: {str(err)[:200]}"))
+        fails.append((f"write-raises:{type(err).__name__}", f"{entry} raised {type(err).__name__}: {str(err)[:200]}"))
         return facts, fails
     if is_mem:
         facts["plan"] = "[] ok"
@@ -286,34 +371,32 @@ def one_case(cfg, workdir, tag):
             return facts, fails
         opener = lambda **k: rasterio.open(path, **k)
 
-    # ---- read back with rasterio (GDAL)
+    # ---- read back with rasterio (GDAL), outside the writer's Env
     is_float = np.dtype(cfg["dtype"]).kind == "f"
-    levels_req = cfg["overview_levels"]
+    ambiguous = cube(pix.shape)
     try:
         with opener() as f:
             got = f.read()
             if got.shape != want.shape or got.dtype != want.dtype or f.count != want.shape[0]:
                 fails.append(("dtype-count-or-shape", f"read {got.shape} {got.dtype}, wrote {want.shape} {want.dtype}"))
-            elif cube(pix.shape):
+            elif ambiguous:
                 facts["ambiguous"] = True  # n x n x n: always read as band-last; reported, not judged
             elif not np.array_equal(got, want, equal_nan=True):
-                nbad = int(np.sum(~((got == want) | (np.isnan(got) & np.isnan(want) if is_float else False))))
+                bad = ~((got == want) | ((np.isnan(got) & np.isnan(want)) if is_float else False))
+                b_, y_, x_ = (int(v) for v in np.argwhere(bad)[0])
                 perm = want.shape[0] > 1 and any(np.array_equal(got[0], want[k], equal_nan=True) for k in range(1, want.shape[0]))
-                fails.append(("band-order" if perm else "pixels-differ", f"{nbad} values differ"))
+                fails.append(("band-order" if perm else "pixels-differ",
+                              f"{int(bad.sum())} values differ, e.g. band {b_ + 1} ({y_},{x_}): wrote {want[b_, y_, x_]!r} read {got[b_, y_, x_]!r}"))
             if tuple(f.transform)[:6] != tuple(gbox.transform)[:6]:
                 fails.append(("transform-differs", f"{tuple(f.transform)[:6]} vs {tuple(gbox.transform)[:6]}"))
             if f.crs is None or f.crs.to_epsg() != gbox.crs.epsg:
                 fails.append(("crs-differs", f"{f.crs} vs {gbox.crs}"))
             if not same_nodata(f.nodata, nodata):
-                fails.append(("nodata-differs", f"{f.nodata} vs {nodata}"))
-            bshapes = set(f.block_shapes)
-            if len(bshapes) != 1:
+                fails.append(("nodata-differs", f"file says {f.nodata}, requested {nodata} (attrs {cfg['attrs_nodata']}, keyword {cfg['kw_nodata']})"))
+            if len(set(f.block_shapes)) != 1:
                 fails.append(("block-shapes-vary", f"{f.block_shapes}"))
             by, bx = f.block_shapes[0]
             # internal tiling judged on the TIFF structure itself (rasterio's is_tiled is a width heuristic)
-            import tifffile  # pylint: disable=import-outside-toplevel
-            from io import BytesIO  # pylint: disable=import-outside-toplevel
-
             with tifffile.TiffFile(BytesIO(out) if is_mem else path) as tf:
                 pg = tf.pages[0]
                 if not pg.is_tiled or (pg.tilelength, pg.tilewidth) != (by, bx):
@@ -327,28 +410,50 @@ def one_case(cfg, workdir, tag):
             n_ov = len(ovs[0])
             if any(len(o) != n_ov for o in ovs):
                 fails.append(("overview-count-varies", f"{ovs}"))
-        ov_sizes = []
+        ov_sizes, ov_pix = [], []
         for i in range(n_ov):
             with opener(overview_level=i) as fo:
                 ov_sizes.append((fo.height, fo.width))
-                if i == 0 and layered and len(layers) > 1 and not cube(layers[1].shape):
-                    l1 = layers[1].data
-                    l1 = l1[None] if l1.ndim == 2 else (l1 if cfg["layout"] == "SYX" else l1.transpose(2, 0, 1))
-                    o1 = fo.read()
-                    if o1.shape != l1.shape or not np.array_equal(o1, l1, equal_nan=True):
-                        fails.append(("supplied-overview-pixels-differ", f"{o1.shape} vs {l1.shape}"))
-        if layered:
+                ov_pix.append(fo.read() if max(h, w) <= 400 or ovr_mode == "supplied" else None)
+        if ovr_mode == "supplied" or entry == "write_cog_layers":
             want_sizes = [tuple(l.shape[ydim:ydim + 2]) for l in layers[1:]]
             if ov_sizes != want_sizes:
                 fails.append(("overview-sizes", f"file {ov_sizes}, supplied layers {want_sizes}"))
+            else:
+                for i, l in enumerate(layers[1:]):
+                    if cube(l.shape) or ambiguous:
+                        continue
+                    li = band_first(l.data, layout)
+                    if ov_pix[i].shape != li.shape or not np.array_equal(ov_pix[i], li, equal_nan=True):
+                        fails.append(("supplied-overview-pixels-differ", f"overview {i}: {ov_pix[i].shape} vs {li.shape}"))
+                        break
         else:
+            levels_req = None if ovr_mode == "default" else ([] if ovr_mode == "none" else cfg["overview_levels"])
             facts["levels_line"] = f"c15 levels {opt_s(levels_req, list_s)} {w} {h}"
             expect = levels_req if levels_req is not None else ([] if min(w, h) < 512 else [2, 4, 8, 16, 32])
             want_sizes = [(-(-h // l), -(-w // l)) for l in expect]
             # GDAL drops nothing and adds nothing: exactly the requested levels, judged by size
             if ov_sizes != want_sizes:
                 fails.append(("overview-sizes", f"file {ov_sizes}, requested levels {expect} → {want_sizes}"))
-            # the level list itself is not stored in the file; the count and sizes are what the model's list implies
+            else:
+                # nearest-neighbour overviews: every overview pixel is one of the pixels of its l x l source cell
+                if cfg["resampling"] in (None, "nearest") and not ambiguous and not fails:
+                    # (first level only: GDAL derives further levels from the previous overview, not from the base)
+                    for l, op in list(zip(expect, ov_pix))[:1]:
+                        if op is None or l > 8 or h % l or w % l:
+                            continue  # partial source cells at the edge are GDAL's business, not judged
+                        oh, ow = op.shape[1:]
+                        # source cell of overview pixel (i, j): rows floor(i*h/oh) .. +l, cols floor(j*w/ow) .. +l (clipped)
+                        ry = (np.arange(oh) * h) // oh
+                        rx = (np.arange(ow) * w) // ow
+                        hit = np.zeros(op.shape, dtype=bool)
+                        for dy in range(l + 1):
+                            for dx in range(l + 1):
+                                cand = want[:, np.minimum(ry + dy, h - 1)][:, :, np.minimum(rx + dx, w - 1)]
+                                hit |= (cand == op) | ((np.isnan(cand) & np.isnan(op)) if is_float else False)
+                        if not hit.all():
+                            fails.append(("overview-not-from-source-cell", f"level {l}: {int((~hit).sum())} overview pixels are none of their source pixels"))
+                            break
             facts["levels_n"] = len(ov_sizes)
             facts["ovr_lines"] = [(f"c15 ovr {w} {h} {l}", f"{s[1]} {s[0]}") for l, s in zip(expect, ov_sizes)]
     except Exception as e:  # pylint: disable=broad-except
@@ -364,7 +469,10 @@ def cube(shape) -> bool:
 
 def cfg_sig(cfg) -> str:
     size = "big" if min(cfg["h"], cfg["w"]) >= 512 else ("tiny" if min(cfg["h"], cfg["w"]) < 16 else "small")
-    return f"rt|{cfg['api']}|{cfg['layout']}|{size}"
+    nd = "kw" if cfg["kw_nodata"] is not None else ("attrs" if cfg["attrs_nodata"] is not None else "none")
+    env = "+".join(sorted(k.replace("GDAL_", "").lower()[:14] for k in ENVS[cfg["env"]])) or "default"
+    return f"rt|{cfg['entry']}|{cfg['dest']}|ovr={cfg['ovr_mode']}|nodata={nd}|{cfg['content']}|{cfg['layout']}|{size}|env={env}" + (
+        "|windowed" if cfg["windowed"] else "")
 
 
 def run_case(R: Run, cfg, workdir, tag):
@@ -527,25 +635,72 @@ def run(R: Run):
                    lambda: list_s([f"{k}={v}" for k, v in RIO._norm_compression_opts(c).items()]), sig="ncomp")  # pylint: disable=protected-access
 
         # ---- the GDAL round trip (dominant part)
-        n_cases = R.pick(450, 6000)
-        t_budget = R.pick(40, 480)
+        n_cases = R.pick(300, 5000)
+        t_budget = R.pick(25, 360)
         t0 = time.time()
         done = 0
+        def mk(**over):
+            base = dict(layout="YX", nb=1, h=96, w=80, dtype="int16", attrs_nodata=None, kw_nodata=None, entry="write_cog",
+                        dest="mem", ovr_mode="none", overview_levels=None, nlayers=2, overwrite_new=False, blocksize=32,
+                        ovr_blocksize=None, windowed=False, icomp=False, resampling=None, content="random", env=0, seed=1)
+            base.update(over)
+            return base
+
         fixed = [
-            dict(layout="YXS", nb=3, h=600, w=513, dtype="uint8", nodata=None, overview_levels=[2, 32], blocksize=None,
-                 ovr_blocksize=None, windowed=False, icomp=False, resampling=None, api="file_new", nlayers=1, seed=11, nodata_via="attr"),
-            dict(layout="SYX", nb=2, h=520, w=700, dtype="int8", nodata=-128, overview_levels=None, blocksize=100,
-                 ovr_blocksize=64, windowed=True, icomp="zstd", resampling="nearest", api="to_cog", nlayers=1, seed=12, nodata_via="kw"),
-            dict(layout="YX", nb=1, h=1, w=1, dtype="float64", nodata=float("nan"), overview_levels=None, blocksize=None,
-                 ovr_blocksize=None, windowed=False, icomp=False, resampling=None, api="file_exists_keep", nlayers=1, seed=13, nodata_via="attr"),
-            dict(layout="YX", nb=1, h=77, w=33, dtype="float64", nodata=None, overview_levels=[2], blocksize=17,
-                 ovr_blocksize=None, windowed=False, icomp=True, resampling=None, api="file_exists_overwrite", nlayers=1, seed=14, nodata_via="attr"),
-            dict(layout="YX", nb=1, h=256, w=200, dtype="uint16", nodata=0, overview_levels=None, blocksize=64,
-                 ovr_blocksize=None, windowed=False, icomp=False, resampling=None, api="layers_file", nlayers=2, seed=15, nodata_via="attr"),
+            mk(layout="YXS", nb=3, h=600, w=513, dtype="uint8", ovr_mode="levels", overview_levels=[2, 32], blocksize=None,
+               dest="file_new", seed=11),
+            mk(layout="SYX", nb=2, h=520, w=700, dtype="int8", kw_nodata=-128, ovr_mode="default", blocksize=100, ovr_blocksize=64,
+               windowed=True, icomp="zstd", resampling="nearest", entry="to_cog", seed=12),
+            mk(h=1, w=1, dtype="float64", attrs_nodata=float("nan"), ovr_mode="default", blocksize=None, dest="file_exists_keep", seed=13),
+            mk(h=77, w=33, dtype="float64", ovr_mode="levels", overview_levels=[2], blocksize=17, icomp=True,
+               dest="file_exists_overwrite", seed=14),
+            mk(h=256, w=200, dtype="uint16", attrs_nodata=0, blocksize=64, entry="write_cog_layers", ovr_mode="supplied",
+               dest="file_new", seed=15),
         ]
         for i, cfg in enumerate(fixed):
             run_case(R, cfg, workdir, f"k{i}")
             done += 1
+
+        # ---- the keyword cross-product on small multi-tile images: every public entry point x destination x overview
+        # mode x nodata (attrs absent/present x keyword absent/same/different) x windowed x ambient env; content pattern,
+        # dtype, layout and block size cycle.  Thorough runs all of it, quick a seeded sample.
+        matrix = []
+        n = 0
+        for entry in ENTRIES:
+            for dest in (["mem"] if entry in ("to_cog", "acc_to_cog") else DESTS):
+                for ovr_mode in (["none", "supplied"] if entry == "write_cog_layers" else OVR_MODES):
+                    for attrs_has in (False, True):
+                        for kw_mode in ("absent", "same", "different"):
+                            if kw_mode == "same" and not attrs_has:
+                                continue
+                            for windowed in (False, True):
+                                for env in (0, 2, 3, 8):
+                                    n += 1
+                                    dt = DTYPES[n % len(DTYPES)]
+                                    cands = nodata_candidates(dt)
+                                    a = cands[n % len(cands)] if attrs_has else None
+                                    others = [c for c in cands if not same_nodata(c, a)]
+                                    k = None if kw_mode == "absent" else (a if kw_mode == "same" else others[(n // 3) % len(others)])
+                                    layout = ["YX", "SYX", "YXS"][n % 3]
+                                    matrix.append(mk(
+                                        layout=layout, nb=1 if layout == "YX" else 1 + n % 3, h=[96, 70, 130, 48][n % 4],
+                                        w=[80, 128, 33, 100][(n // 4) % 4], dtype=dt, attrs_nodata=a, kw_nodata=k, entry=entry,
+                                        dest=dest, ovr_mode=ovr_mode, overview_levels=[[2], [2, 4]][n % 2] if ovr_mode == "levels" else None,
+                                        nlayers=1 + n % 3, overwrite_new=bool(n % 2), blocksize=[16, 32, 48, None, 20][n % 5],
+                                        windowed=windowed, icomp=[False, True, "zstd", {"compress": "lzw"}][(n // 2) % 4],
+                                        resampling=[None, "nearest", "average"][n % 3], content=CONTENTS[n % len(CONTENTS)],
+                                        env=env, seed=1000 + n))
+        R.extra["cross_product_size"] = len(matrix)
+        pick = matrix if not R.quick else rng.sample(matrix, 330)
+        t1 = time.time()
+        for i, cfg in enumerate(pick):
+            if time.time() - t1 > R.pick(25, 300):
+                R.notes.append(f"cross-product loop stopped by time budget after {i} of {len(pick)} cases")
+                break
+            run_case(R, cfg, workdir, f"m{i}")
+            done += 1
+
+        t0 = time.time()
         for i in range(n_cases):
             if time.time() - t0 > t_budget:
                 R.notes.append(f"round-trip loop stopped by time budget after {done} cases")
@@ -568,7 +723,7 @@ def replay(R: Run, rec) -> int:
     case = rec.get("case") or {}
     print("replay key:", rec.get("key"))
     print("replay case:", case)
-    if isinstance(case, dict) and "api" in case:
+    if isinstance(case, dict) and "entry" in case:
         d = tempfile.mkdtemp(prefix="c15-")
         try:
             facts, fails = one_case(case, d, "replay")
